@@ -20,6 +20,7 @@ import (
 	"errors"
 	"github.com/dgraph-io/badger/v4"
 	"github.com/mimiro-io/datahub/internal/conf"
+	"github.com/mimiro-io/datahub/internal/verifhook"
 	"go.uber.org/zap"
 )
 
@@ -162,6 +163,7 @@ func (garbageCollector *GarbageCollector) deleteByPrefixAndSelectorFunction(
 	selector func(key []byte) bool,
 ) error {
 	deleteKeys := func(keysForDelete [][]byte) error {
+		verifhook.Point("gc.batch", "")
 		return garbageCollector.store.database.Update(func(txn *badger.Txn) error {
 			for _, key := range keysForDelete {
 				if err := txn.Delete(key); err != nil {
